@@ -17,6 +17,7 @@ Inductive op :=
 | OBroadcastTo (i : nat)            (* a.broadcast(other array = input i) *)
 | OGet (f : form) (tol : tolv) (keepdims : bool)
 | OPut (f : form) (tol : tolv) (r : rhs) (cast : bool)
+| OPutMask (m : list bool) (r : rhs) (cast : bool)
 .
 
 Definition dflt_arr : darr := Arr [] [] KF [CNaN] [].
@@ -36,6 +37,7 @@ Definition apply_op (ins : list darr) (o : op) (a : darr) : res value :=
   | OBroadcastTo i => arr1 (broadcast (axes (nth i ins dflt_arr))) a
   | OGet f tol kd => getitem f tol kd a
   | OPut f tol r c => arr1 (setitem f tol r c) a
+  | OPutMask m r c => arr1 (setmask m r c) a
   end.
 
 (* a program: ops applied in sequence to input 0; every intermediate result must be an array *)
